@@ -442,6 +442,194 @@ func linked() {
 	o("linked/shallow-copy", is(a.val, b.val))
 }
 
+
+// Aliases into a struct / array variable must keep following the variable when the whole
+// variable is overwritten in place (by assignment, through a pointer, as a slice / array element,
+// by copy, by a swap): the storage stays, only its contents change.
+type Q struct {
+	vals [3]Int
+	tags [2]string
+	fl   [2]float64
+	by   [2]uint8
+	in   struct{ row [2]Int }
+	els  [2]struct{ a Int }
+	grid [2][2]Int
+	n    Int
+}
+
+func mkQ(k Int) Q {
+	var q Q
+	q.vals = [3]Int{k, k + 1, k + 2}
+	q.tags = [2]string{"t" + itoa(int64(k)), "u"}
+	q.fl = [2]float64{float64(k) + 0.5, 2}
+	q.by = [2]uint8{uint8(k), 9}
+	q.in.row = [2]Int{k * 10, k*10 + 1}
+	q.els[1].a = k * 100
+	q.grid[1] = [2]Int{k, -k}
+	q.n = k
+	return q
+}
+
+type aliases struct {
+	view  []Int
+	tview []string
+	pArr  *[3]Int
+	pElem *Int
+	pTag  *string
+	pFl   *float64
+	pBy   *uint8
+	pRow  *[2]Int
+	pIn   *Int
+	pEl   *Int
+	pGrid *[2]Int
+	pN    *Int
+	bview []uint8
+}
+
+func take(q *Q) aliases {
+	return aliases{q.vals[:], q.tags[:], &q.vals, &q.vals[2], &q.tags[0], &q.fl[0], &q.by[0], &q.in.row, &q.in.row[1], &q.els[1].a, &q.grid[1], &q.n, q.by[:]}
+}
+
+func (a aliases) read() string {
+	return is(a.view...) + "|" + a.tview[0] + a.tview[1] + "|" + is(a.pArr[1], *a.pElem) + "|" + *a.pTag + "|" + ftoa(*a.pFl) + "|" + is(Int(*a.pBy), Int(a.bview[1])) + "|" + is(a.pRow[0], *a.pIn, *a.pEl, a.pGrid[1], *a.pN)
+}
+
+func (a aliases) write() {
+	a.view[0] = -1
+	a.tview[1] = "W"
+	a.pArr[1] = -2
+	*a.pElem = -3
+	*a.pFl = -4.5
+	*a.pBy = 200
+	a.pRow[0] = -5
+	*a.pIn = -6
+	*a.pEl = -7
+	a.pGrid[0] = -8
+	*a.pN = -9
+}
+
+func showQ(q Q) string {
+	return is(q.vals[:]...) + "|" + q.tags[0] + q.tags[1] + "|" + ftoa(q.fl[0]) + "|" + is(Int(q.by[0])) + "|" + is(q.in.row[0], q.in.row[1], q.els[1].a, q.grid[1][0], q.grid[1][1], q.n)
+}
+
+func retQ(k Int) Q { return mkQ(k) }
+
+func overwriteInPlace() {
+	{
+		s := mkQ(1)
+		al := take(&s)
+		s = mkQ(2)
+		o("overwrite/assign/read", al.read())
+		al.write()
+		o("overwrite/assign/write", showQ(s))
+	}
+	{
+		s := mkQ(1)
+		al := take(&s)
+		ps := &s
+		*ps = mkQ(3)
+		o("overwrite/via-ptr/read", al.read())
+		al.write()
+		o("overwrite/via-ptr/write", showQ(s))
+	}
+	{
+		list := []Q{mkQ(1), mkQ(2)}
+		al := take(&list[1])
+		list[1] = mkQ(4)
+		o("overwrite/slice-elem/read", al.read())
+		al.write()
+		o("overwrite/slice-elem/write", showQ(list[1]))
+		al0 := take(&list[0])
+		copy(list, []Q{mkQ(5), mkQ(6)})
+		o("overwrite/copy/read", al0.read()+"#"+al.read())
+		al0.write()
+		o("overwrite/copy/write", showQ(list[0]))
+	}
+	{
+		var arr [2]Q
+		arr[0] = mkQ(1)
+		al := take(&arr[0])
+		arr[0] = mkQ(7)
+		o("overwrite/array-elem/read", al.read())
+		arr = [2]Q{mkQ(8), mkQ(9)}
+		o("overwrite/array-whole/read", al.read())
+		al.write()
+		o("overwrite/array-whole/write", showQ(arr[0]))
+	}
+	{
+		var outer struct {
+			pad Int
+			q   Q
+		}
+		outer.q = mkQ(1)
+		al := take(&outer.q)
+		outer.q = mkQ(10)
+		o("overwrite/field/read", al.read())
+		outer2 := outer
+		outer2.q.n = 77
+		outer = outer2
+		o("overwrite/outer/read", al.read())
+		al.write()
+		o("overwrite/outer/write", showQ(outer.q))
+	}
+	{
+		s, t := mkQ(1), mkQ(11)
+		as, at := take(&s), take(&t)
+		s, t = t, s
+		o("overwrite/swap/read", as.read()+"#"+at.read())
+		s = retQ(12)
+		o("overwrite/call-result/read", as.read())
+		var z Q
+		s = z
+		o("overwrite/zero/read", as.read())
+		as.write()
+		o("overwrite/zero/write", showQ(s))
+	}
+	{
+		pkgQ = mkQ(1)
+		al := take(&pkgQ)
+		pkgQ = mkQ(13)
+		o("overwrite/pkgvar/read", al.read())
+		al.write()
+		o("overwrite/pkgvar/write", showQ(pkgQ))
+	}
+	{
+		s := mkQ(1)
+		al := take(&s)
+		f := func() { s = mkQ(14) }
+		f()
+		o("overwrite/closure/read", al.read())
+		for _, v := range []Q{mkQ(15)} {
+			s = v
+		}
+		o("overwrite/range-value/read", al.read())
+		ch := make(chan Q, 1)
+		ch <- mkQ(16)
+		s = <-ch
+		o("overwrite/recv/read", al.read())
+		var i interface{} = mkQ(17)
+		s = i.(Q)
+		o("overwrite/assert/read", al.read())
+		m := map[string]Q{"k": mkQ(18)}
+		s = m["k"]
+		o("overwrite/mapelem/read", al.read())
+		// plain arrays as variables
+		a := [3]Int{1, 2, 3}
+		v, pe := a[:], &a[1]
+		a = [3]Int{4, 5, 6}
+		o("overwrite/array-var/read", is(v...)+"|"+is(*pe))
+		v[2] = 9
+		*pe = 8
+		o("overwrite/array-var/write", is(a[:]...))
+		aa := [2][2]Int{{1, 2}, {3, 4}}
+		row := &aa[1]
+		aa = [2][2]Int{{5, 6}, {7, 8}}
+		o("overwrite/array-of-array/read", is(row[0], row[1]))
+	}
+}
+
+var pkgQ Q
+
 func main() {
 	addrOfVar()
 	addrOfField()
@@ -453,6 +641,7 @@ func main() {
 	closures()
 	rangeWrites()
 	linked()
+	overwriteInPlace()
 }
 `
 
